@@ -10,7 +10,7 @@ META = {
                    'the base; R09.2 insertion appends, therefore lookup scans scopes last-to-first and names within a scope last-to-first; '
                    'R09.3 a function body sees exactly its own context and the global one; R09.4 every slot operand is the index of a symbol '
                    'obtained from define/resolve and every failed resolve ends in a ReferenceError at compile time; R09.5 a declaration '
-                   'defines its name before compiling the initialiser, and a named function before its body.',
+                   'defines its name before compiling the initialiser, and a named function before its body. R09.7 whatever the lookup reads besides the scope structure (a cache of answers) is kept in step by every method that changes the structure.',
     'not_decided': ['agreement of the slot arithmetic (total_len()-1 vs abs_index+index) for every enter/leave/define history', 'run-time values of variables'],
 }
 SYM = 'src/symbols.rs'
@@ -98,6 +98,10 @@ def run(ctx, rep):
     okv = len(vecs) == 1 and len(vecs[0].get('args') or []) == 1
     rep.ob(okv, 'R09.1', 'symbols::Context::new', 'base scope', 'a new context starts with one scope', 'src/symbols.rs:%d' % cn['line'])
 
+    rep.rule('R09.7', 'a lookup answers from the scope structure as it is now: state the lookup reads besides the structure (a cache, a counter) is updated by every method that changes the structure')
+    check_memo(ctx, rep, 'R09.7')
+    rep.rule('R09.8', 'define and resolve agree on the slot of a name: a declaration appends the name once and gets the slot `names in all open scopes - 1`')
+    check_define_slot(ctx, rep, 'R09.8')
     rep.rule('R09.6', 'every node of a statement / argument / element list is compiled (names in all of them are resolved)')
     b6 = [v for v in R['violations'] if v['oblig'] == 'R09.6']
     for v in b6:
@@ -282,3 +286,203 @@ def check_visibility(ctx, rep, rule):
                 consulted.append('other:' + a[:80])
     rep.ob(sorted(consulted) == ['current', 'global'], rule, sr.path, 'contexts consulted', 'exactly the current context and contexts[0]: %s' % consulted, sr.loc())
 
+
+
+VEC_MUTATORS = ('push', 'pop', 'truncate', 'clear', 'insert', 'remove', 'swap_remove', 'drain', 'retain', 'resize', 'extend', 'append',
+                'split_off', 'set_len', 'dedup', 'extend_from_slice', 'resize_with', 'retain_mut')
+
+
+def check_memo(ctx, rep, rule):
+    """the answer of a lookup is a function of the scope structure as it is NOW.  The lookup routines may read other state of the
+    symbol table (a cache of the last answer, a generation counter, a running count); then every method that changes the scope
+    structure in a way a lookup can notice must update that state too, or a later lookup answers from a world that no longer
+    exists (`{ stel a = 1; a } a` resolves the second `a` to the slot of the first).  Fields are found by type, methods by
+    what they do; on a tree without such state the rule has nothing to demand and says which fields the lookup reads."""
+    F = ctx.facts()
+    OWNERS = ('symbols::SymbolTable', 'symbols::Context')
+    fields = {}
+    for o in OWNERS:
+        a = F.adt(o)
+        if a is None:
+            raise CheckerError('%s: anchor not found: %s' % (rule, o))
+        for f in a['variants'][0]['fields']:
+            fields[(o, f['name'])] = f['ty']
+    # the scope structure itself: the collections of contexts / scopes / names; `scope` is fixed at construction
+    structure = {k for k, ty in fields.items() if ('Vec<' in ty and ('Context' in ty or 'String' in ty))}
+    sym_fns = [f for f in F.all_fns if f.crate == 'lib' and f.path.startswith('symbols::') and '::tests' not in f.path]
+    by_path = {f.path: f for f in sym_fns}
+
+    def owner_of(fn, local):
+        ty = fn.local_ty(local)
+        for o in OWNERS:
+            if o in ty:
+                return o
+        return None
+
+    def field_uses(fn):
+        """{(owner, field): {'read'|'write'}} for places rooted at a SymbolTable / Context value"""
+        out = {}
+
+        def note(pl, how):
+            cur_owner = owner_of(fn, pl['local'])
+            for e in pl['proj']:
+                if isinstance(e, dict) and 'field' in e and cur_owner is not None:
+                    k = (cur_owner, e['name'])
+                    if k in fields:
+                        out.setdefault(k, set()).add(how)
+                        ty = fields[k]
+                        cur_owner = next((o for o in OWNERS if o in ty), None)
+                        how_next = how
+                    else:
+                        cur_owner = None
+                elif isinstance(e, dict) and 'field' in e:
+                    cur_owner = None
+
+        def walk(x, how):
+            if isinstance(x, dict):
+                if 'local' in x and 'proj' in x:
+                    note(x, how)
+                for v in x.values():
+                    walk(v, how)
+            elif isinstance(x, list):
+                for v in x:
+                    walk(v, how)
+        for b, si, st in fn.stmts():
+            if st['k'] == 'assign':
+                if st['place']['proj']:
+                    note(st['place'], 'write')
+                rv = st['rv']
+                if rv['k'] in ('ref', 'rawptr') and rv.get('mut'):
+                    note(rv['place'], 'write')
+                    note(rv['place'], 'read')
+                else:
+                    walk(rv, 'read')
+        for b, t in fn.calls():
+            for a in t['args']:
+                walk(a, 'read')
+        for bl in fn.blocks:
+            t = bl['term']
+            if t['k'] == 'switch':
+                walk(t.get('discr') or t.get('op') or {}, 'read')
+        return out
+
+    def closure_of(root):
+        seen, work = set(), [root]
+        while work:
+            p = work.pop()
+            if p in seen or p not in by_path:
+                continue
+            seen.add(p)
+            for b, t in by_path[p].calls():
+                for c in callee_paths(t):
+                    if c.startswith('symbols::'):
+                        work.append(c)
+            for q in by_path:
+                if q.startswith(p + '::{closure'):
+                    work.append(q)
+        return seen
+
+    resolvers = [p for p in by_path if p in ('symbols::SymbolTable::resolve', 'symbols::Context::resolve')]
+    if len(resolvers) != 2:
+        raise CheckerError('%s: anchor not found: the two lookup routines of the symbol table (found %s)' % (rule, resolvers))
+    read_by_lookup = {}
+    for r in resolvers:
+        for q in closure_of(r):
+            for k, hows in field_uses(by_path[q]).items():
+                if 'read' in hows:
+                    read_by_lookup.setdefault(k, set()).add(q)
+    memo = sorted(k for k in read_by_lookup if k not in structure and k[1] != 'scope')
+    for k in sorted(read_by_lookup):
+        if k in structure or k[1] == 'scope':
+            rep.good(rule, 'symbols::' + k[0].split('::')[-1], 'lookup reads %s.%s' % (k[0].split('::')[-1], k[1]), 'part of the scope structure itself (or fixed at construction)', 'src/symbols.rs')
+    if not memo:
+        rep.count('lookup_state_fields', 0)
+        return
+    rep.count('lookup_state_fields', len(memo))
+    # methods that change the structure noticeably
+    for f in sym_fns:
+        if '{closure' in f.path or f.path in resolvers or not f.path.startswith('symbols::SymbolTable::'):
+            continue
+        if f.arg_count < 1 or 'mut' not in f.local_ty(1) or 'SymbolTable' not in f.local_ty(1):
+            continue
+        cl = closure_of(f.path)
+        muts = []
+        for q in cl:
+            for b, t in by_path[q].calls():
+                n = callee_name(t)
+                if n.startswith('alloc::vec::Vec') and n.split('::')[-1] in VEC_MUTATORS:
+                    # pushing an empty scope changes no answer
+                    if n.split('::')[-1] == 'push' and len(t['args']) > 1:
+                        d = by_path[q].def_rvalue(t['args'][1])
+                        if d and d[0] == 'call' and callee_name(d[2]).endswith('Vec::<T>::new'):
+                            continue
+                    muts.append(n.split('::')[-1])
+        if not muts:
+            continue
+        written = set()
+        for q in cl:
+            for k, hows in field_uses(by_path[q]).items():
+                if 'write' in hows:
+                    written.add(k)
+        ok = any(k in written for k in memo)
+        rep.ob(ok, rule, f.path, 'keeps the lookup state in step',
+               'this method changes the scope structure (%s) and the lookup also reads %s: it must update that state (writes seen here: %s)' % (
+                   ', '.join(sorted(set(muts))), ', '.join('%s.%s' % (k[0].split('::')[-1], k[1]) for k in memo),
+                   sorted('%s.%s' % (k[0].split('::')[-1], k[1]) for k in written if k in memo) or 'none'), f.loc())
+
+
+def check_define_slot(ctx, rep, rule):
+    """`define` and `resolve` must agree on the slot of a name: resolve answers `names in the outer scopes + position in its own
+    scope`; a new name is appended to the innermost scope, so its slot is `names in ALL open scopes - 1`.  Every returning path of
+    Context::define appends the name exactly once and returns that count (a position inside the innermost scope alone is the
+    right slot only while no outer scope holds a name)."""
+    F = ctx.facts()
+    dfn = F.fn('symbols::Context::define')
+    n = 0
+    for p in AbsInt(F, dfn).run():
+        if p.exit != 'return':
+            continue
+        n += 1
+        r = simp(p.env.get('_0'))
+        idx = None
+        if r and r[0] == 'agg' and r[1] == 'symbols::Symbol':
+            fields = [f['name'] for f in F.adt('symbols::Symbol')['variants'][0]['fields']]
+            idx = r[3][fields.index('index')]
+        v = idx
+        for _ in range(10):
+            if v is None:
+                break
+            if v[0] == 'call' and (v[1].endswith('::unwrap') or v[1].endswith('try_into') or v[1].endswith('::expect') or v[1].endswith('::unwrap_or_default')
+                                   or (v[1].endswith('::from') and len(v[2]) == 1) or (v[1].startswith('compiler::') and len(v[2]) == 1)):
+                v = v[2][0]
+            elif v[0] in ('okval', 'cast'):
+                v = v[1]
+            elif v[0] == 'field' and v[2] == '0' and v[1][0] == 'binop' and v[1][1].endswith('WithOverflow'):
+                v = ('binop', v[1][1][:-12], v[1][2], v[1][3])
+            else:
+                break
+        pushes = [i for i, c in enumerate(p.calls) if c[1] == 'alloc::vec::Vec::<T, A>::push']
+
+        def counts_all(x):
+            return isinstance(x, tuple) and x and x[0] == 'call' and (x[1] == 'symbols::Context::total_len' or x[1].endswith('::fold') or x[1].endswith('::sum'))
+
+        def call_pos(x):
+            for i, c in enumerate(p.calls):
+                if len(x) > 3 and c[0] == x[3] and c[1] == x[1]:
+                    return i
+            return None
+        ok = False
+        why = 'index = %s' % (show(v)[:120] if v else None)
+        if v is not None and len(pushes) == 1:
+            if v[0] == 'binop' and v[1] == 'Sub' and counts_all(v[2]) and int_of(v[3]) == 1:
+                cp = call_pos(v[2])
+                ok = cp is not None and cp > pushes[0]
+            elif counts_all(v):
+                cp = call_pos(v)
+                ok = cp is not None and cp < pushes[0]
+        elif len(pushes) != 1:
+            why = 'the name is appended %d times on this path' % len(pushes)
+        rep.ob(ok, rule, dfn.path, 'slot of a new name (path %d)' % n, 'one append to the innermost scope, and the slot returned is the number of names in all open scopes of the context minus one, counted after the append: %s' % why, dfn.loc())
+    rep.count('define_paths', n)
+    if n == 0:
+        raise CheckerError('%s: Context::define has no returning path' % rule)
